@@ -169,6 +169,11 @@ def eval_bool(t, env):
         return None
     if k == 'cast':
         return eval_bool(t[1], env)
+    if k == 'vfield' and t[2] == 'Continue':
+        d = detry(t)
+        if d is not t and d != t:
+            return eval_bool(d, env)
+        return None
     if k == 'phi':
         vals = {eval_bool(a, env) for a in t[1]}
         if len(vals) == 1:
